@@ -20,12 +20,13 @@ MANIFEST = {
 BOUNDS = {"quick": {"classes": 4, "depth": 3}, "thorough": {"classes": 4, "depth": 4}}
 TIME_BUDGET = {"quick": 300, "thorough": 1200}
 STUBS = []
-ASSUMPTIONS = ["instances are kept alive by the caller (no garbage collection between steps)"]
+ASSUMPTIONS = ["in the symbolic histories instances are kept alive by the caller (garbage collection is not modelled; "
+               "weakref.WeakValueDictionary is modelled as a dict); one native replay drops its references and collects"]
 EXPLANATION = "bounded histories of constructions / targeted clears / global clears against a per-class reference"
 
 
 def configs(tier):
-    return [{"depth": 3 if tier == "quick" else 4}]
+    return [{"depth": 3 if tier == "quick" else 4}, {"depth": 0, "native_gc": True}]
 
 
 def required_markers(tier):
@@ -121,6 +122,29 @@ no_exc = raised is None
 '''
 
 
+def native_unreferenced(B):
+    """[native replay] the caller keeps NO reference to the instance between constructions (garbage collection
+    is outside the symbolic model): the instance must survive until it is cleared"""
+    import gc
+    from edgegraph.structure import singleton
+    counts = {"n": 0, "args": []}
+
+    class Config(metaclass=singleton.TrueSingleton):
+        def __init__(self, x=None):
+            counts["n"] += 1
+            counts["args"].append(x)
+            self.x = x
+    Config(1)
+    gc.collect()
+    second = Config(2).x
+    gc.collect()
+    third = Config(3).x
+    ok = (counts["n"] == 1) and (second == 1) and (third == 1)
+    singleton.clear_true_singleton(Config)
+    B.prove("[native replay] an instance the caller does not hold stays the class's instance until cleared "
+            "(__init__ ran %d times, saw %r)" % (counts["n"], counts["args"]), ok)
+
+
 def scenario(B, p):
     ops = []
     # start-up: an arbitrary subset of the classes is already instantiated (by real constructor calls)
@@ -143,5 +167,7 @@ def scenario(B, p):
     B.observe("count", out["COUNT"])
     B.reach("history")
     B.prove("no step raises", out["no_exc"])
+    if p.get("native_gc"):
+        B.native_only(native_unreferenced)
     B.prove("every construction returns the reference's instance (identity, exact class, __init__ once per period "
             "with the first call's arguments, per-class isolation)", out["ok"])
